@@ -1374,5 +1374,346 @@ theorem flush_spec (fx : Fixes) {t : Tree} {out : FlushOut} (hf : flush fx t = .
   rw [applyAll_append]
   exact doRestore_spec hwf fx hroot hc2 _
 
+
+/-! ### what `cursorSpec` reads: operations that keep the shape of the store -/
+
+/-- The fields of a window the specification's walks read (everything but the cursor record, `is_focused`, the
+    notification switch and the bookkeeping). -/
+def shapeOf (w : Win) : Option Nat × List Nat × Option Nat × Rect × Bool × Bool × Bool :=
+  (w.parent, w.children, w.focusedChild, w.rect, w.isRoot, w.isVisible, w.freed)
+
+/-- Two stores with the same windows up to cursor records and `is_focused` flags. -/
+def Agree (t t' : Tree) : Prop :=
+  t'.wins.size = t.wins.size ∧ ∀ i : Nat, (t'.wins[i]?).map shapeOf = (t.wins[i]?).map shapeOf
+
+theorem agree_refl (t : Tree) : Agree t t := ⟨rfl, fun _ => rfl⟩
+
+theorem agree_trans {a b c : Tree} (h1 : Agree a b) (h2 : Agree b c) : Agree a c :=
+  ⟨h2.1.trans h1.1, fun i => (h2.2 i).trans (h1.2 i)⟩
+
+theorem agree_some {t t' : Tree} (h : Agree t t') {i : Nat} {w : Win} (hw : t.wins[i]? = some w) :
+    ∃ w', t'.wins[i]? = some w' ∧ shapeOf w' = shapeOf w := by
+  have := h.2 i
+  rw [hw] at this
+  cases hw' : t'.wins[i]? with
+  | none => rw [hw'] at this; simp at this
+  | some w' => rw [hw'] at this; simp at this; exact ⟨w', rfl, this⟩
+
+theorem agree_none {t t' : Tree} (h : Agree t t') {i : Nat} (hw : t.wins[i]? = none) : t'.wins[i]? = none := by
+  have := h.2 i
+  rw [hw] at this
+  cases hw' : t'.wins[i]? with
+  | none => rfl
+  | some w' => rw [hw'] at this; simp at this
+
+theorem agree_set {t : Tree} {i : Nat} {w w' : Win} (hw : t.wins[i]? = some w) (hs : shapeOf w' = shapeOf w) :
+    Agree t (WinTree.set t i w') := by
+  refine ⟨by simp [WinTree.set], fun j => ?_⟩
+  simp only [WinTree.set, Array.getElem?_setIfInBounds]
+  by_cases hij : i = j
+  · subst hij
+    have hi : i < t.wins.size := (Array.getElem?_eq_some_iff.mp hw).1
+    rw [hw]; simp [hi, hs]
+  · simp [hij]
+
+theorem chainEnd_agree {t t' : Tree} (h : Agree t t') : ∀ (f win : Nat), chainEnd t' f win = chainEnd t f win := by
+  intro f
+  induction f with
+  | zero => intro win; rfl
+  | succ f ih =>
+    intro win
+    rw [chainEnd, chainEnd]
+    cases hw : t.wins[win]? with
+    | none => rw [agree_none h hw]
+    | some w =>
+      obtain ⟨w', hw', hs⟩ := agree_some h hw
+      rw [hw']
+      have : w'.focusedChild = w.focusedChild := by unfold shapeOf at hs; simp at hs; exact hs.2.2.1
+      simp only [this, ih]
+
+theorem allVisible_agree {t t' : Tree} (h : Agree t t') : ∀ (f win : Nat), allVisible t' f win = allVisible t f win := by
+  intro f
+  induction f with
+  | zero => intro win; rfl
+  | succ f ih =>
+    intro win
+    rw [allVisible, allVisible]
+    cases hw : t.wins[win]? with
+    | none => rw [agree_none h hw]
+    | some w =>
+      obtain ⟨w', hw', hs⟩ := agree_some h hw
+      rw [hw']
+      unfold shapeOf at hs; simp at hs
+      simp only [hs.1, hs.2.2.2.2.1, hs.2.2.2.2.2.1, hs.2.2.2.2.2.2, ih]
+
+theorem absCell_agree {t t' : Tree} (h : Agree t t') : ∀ (f win : Nat) (l c : Int),
+    absCell t' f win l c = absCell t f win l c := by
+  intro f
+  induction f with
+  | zero => intro win l c; rfl
+  | succ f ih =>
+    intro win l c
+    rw [absCell, absCell]
+    cases hw : t.wins[win]? with
+    | none => rw [agree_none h hw]
+    | some w =>
+      obtain ⟨w', hw', hs⟩ := agree_some h hw
+      rw [hw']
+      unfold shapeOf at hs; simp at hs
+      simp only [hs.1, hs.2.2.2.1, ih]
+
+theorem insideAll_agree {t t' : Tree} (h : Agree t t') : ∀ (f win : Nat) (l c : Int),
+    insideAll t' f win l c = insideAll t f win l c := by
+  intro f
+  induction f with
+  | zero => intro win l c; rfl
+  | succ f ih =>
+    intro win l c
+    rw [insideAll, insideAll]
+    cases hw : t.wins[win]? with
+    | none => rw [agree_none h hw]
+    | some w =>
+      obtain ⟨w', hw', hs⟩ := agree_some h hw
+      rw [hw']
+      unfold shapeOf at hs; simp at hs
+      simp only [hs.1, hs.2.2.2.1, ih]
+
+theorem ownerIn_agree {t t' : Tree} (h : Agree t t') : ∀ (f win : Nat) (l c : Int),
+    ownerIn t' f win l c = ownerIn t f win l c := by
+  intro f
+  induction f with
+  | zero => intro win l c; rfl
+  | succ f ih =>
+    intro win l c
+    rw [ownerIn, ownerIn]
+    cases hw : t.wins[win]? with
+    | none => rw [agree_none h hw]
+    | some w =>
+      obtain ⟨w', hw', hs⟩ := agree_some h hw
+      rw [hw']
+      unfold shapeOf at hs; simp at hs
+      simp only [hs.2.1, hs.2.2.2.1, hs.2.2.2.2.2.1, hs.2.2.2.2.2.2, ih]
+
+/-- `cursorSpec` is the same in two stores of the same shape whose focus-chain ends carry the same `is_focused`
+    flag and cursor record, or are both unfocused. -/
+theorem cursorSpec_agree {t t' : Tree} (h : Agree t t')
+    (he : ∀ w w', t.wins[chainEnd t (treeFuel t) 0]? = some w → t'.wins[chainEnd t (treeFuel t) 0]? = some w' →
+      (w'.isFocused = w.isFocused ∧ w'.cursor = w.cursor) ∨ (w.isFocused = false ∧ w'.isFocused = false)) :
+    cursorSpec t' = cursorSpec t := by
+  have hf : treeFuel t' = treeFuel t := by unfold treeFuel; rw [h.1]
+  unfold cursorSpec owner
+  rw [hf, h.1]
+  simp only [chainEnd_agree h, allVisible_agree h, absCell_agree h, insideAll_agree h, ownerIn_agree h]
+  cases hw : t.wins[chainEnd t (treeFuel t) 0]? with
+  | none => rw [agree_none h hw]
+  | some w =>
+    obtain ⟨w', hw', _⟩ := agree_some h hw
+    rw [hw']
+    rcases he w w' hw hw' with ⟨h1, h2⟩ | ⟨h1, h2⟩
+    · simp only [h1, h2]
+    · simp only [h1, h2, Bool.false_and, Bool.false_eq_true, if_false]
+
+/-! ### `restore_requested`: the cursor setters -/
+
+/-- An operation requests what the property needs: afterwards a restore or an expose is pending (and the flush will
+    not be skipped), or the operation did not change what the cursor has to be. -/
+def Requests (t t' : Tree) : Prop :=
+  ((t'.root.needsRestore = true ∨ t'.root.needsExpose = true) ∧ t'.root.needsLater = true) ∨ cursorSpec t' = cursorSpec t
+
+theorem get_set_self {t : Tree} {i : Nat} {w w' : Win} (hw : t.wins[i]? = some w) (hf : w'.freed = false) :
+    WinTree.get (WinTree.set t i w') i = .ok w' := by
+  apply get_ok.mpr
+  refine ⟨?_, hf⟩
+  have hi : i < t.wins.size := (Array.getElem?_eq_some_iff.mp hw).1
+  simp [WinTree.set, hi]
+
+/-- Every setter of the cursor record (`set_cursor_position`, and `setctl_int` with CURSORVIS, CURSORSHAPE,
+    CURSORBLINK): writes the record, then requests a restore when the window is focused. -/
+theorem cursor_setter_requests {t t' : Tree} {win : Nat} (f : Cursor → Cursor)
+    (h : (WinTree.modify t win (fun w => { w with cursor := f w.cursor }) >>= fun t1 => restoreIfFocused t1 win) = .ok t') :
+    Requests t t' := by
+  simp only [bind_ok] at h
+  obtain ⟨t1, hm, hr⟩ := h
+  unfold WinTree.modify at hm
+  simp only [bind_ok, pure_ok] at hm
+  obtain ⟨w, hg, ht1⟩ := hm
+  have hw := get_ok.mp hg
+  subst ht1
+  unfold restoreIfFocused at hr
+  simp only [bind_ok] at hr
+  obtain ⟨w1, hg1, hr⟩ := hr
+  rw [get_set_self hw.1 (by exact hw.2)] at hg1
+  cases hg1
+  split at hr
+  · unfold requestRestoreOf at hr
+    simp only [bind_ok, pure_ok] at hr
+    obtain ⟨_, _, hr⟩ := hr
+    subst hr
+    exact .inl ⟨.inl rfl, rfl⟩
+  · next hnf =>
+    have hfoc' : w.isFocused = false := by simpa using hnf
+    simp only [pure_ok] at hr
+    subst hr
+    right
+    apply cursorSpec_agree (agree_set (w' := { w with cursor := f w.cursor }) hw.1 rfl)
+    intro a a' ha ha'
+    by_cases he : chainEnd t (treeFuel t) 0 = win
+    · right
+      rw [he] at ha ha'
+      rw [hw.1] at ha; cases ha
+      have hi : win < t.wins.size := (Array.getElem?_eq_some_iff.mp hw.1).1
+      simp [WinTree.set, hi] at ha'
+      subst ha'
+      exact ⟨hfoc', hfoc'⟩
+    · left
+      have : (WinTree.set t win { w with cursor := f w.cursor }).wins[chainEnd t (treeFuel t) 0]? =
+          t.wins[chainEnd t (treeFuel t) 0]? := by
+        simp only [WinTree.set]
+        exact Array.getElem?_setIfInBounds_ne (fun hx => he hx.symm)
+      rw [this, ha] at ha'
+      cases ha'
+      exact ⟨rfl, rfl⟩
+
+
+/-! ### `restore_requested`: `take_focus` along a visible path -/
+
+/-- What the climb of `_focus_gained` reads of a window. -/
+def pv (w : Win) : Option Nat × Bool × Bool := (w.parent, w.isVisible, w.freed)
+
+/-- Same parents, visibility and liveness, same root record. -/
+def SamePV (t t' : Tree) : Prop := t'.root = t.root ∧ ∀ i : Nat, (t'.wins[i]?).map pv = (t.wins[i]?).map pv
+
+theorem samePV_refl (t : Tree) : SamePV t t := ⟨rfl, fun _ => rfl⟩
+theorem samePV_trans {a b c : Tree} (h1 : SamePV a b) (h2 : SamePV b c) : SamePV a c :=
+  ⟨h2.1.trans h1.1, fun i => (h2.2 i).trans (h1.2 i)⟩
+
+theorem samePV_set {t : Tree} {i : Nat} {w w' : Win} (hw : t.wins[i]? = some w) (hs : pv w' = pv w) :
+    SamePV t (WinTree.set t i w') := by
+  refine ⟨rfl, fun j => ?_⟩
+  simp only [WinTree.set, Array.getElem?_setIfInBounds]
+  by_cases hij : i = j
+  · subst hij
+    have hi : i < t.wins.size := (Array.getElem?_eq_some_iff.mp hw).1
+    rw [hw]; simp [hi, hs]
+  · simp [hij]
+
+theorem focusLostSelf_pv {t : Tree} {win : Nat} {evs : List Event} {r : Tree × List Event}
+    (h : focusLostSelf t win evs = .ok r) : SamePV t r.1 := by
+  simp only [focusLostSelf, bind_ok] at h
+  obtain ⟨w, hg, h⟩ := h
+  split at h
+  · simp only [pure_ok] at h; subst h; exact samePV_set (get_ok.mp hg).1 rfl
+  · simp only [pure_ok] at h; subst h; exact samePV_refl _
+
+theorem focusLost_pv : ∀ (fuel : Nat) (t : Tree) (win : Nat) (r : Tree × List Event),
+    focusLost fuel t win = .ok r → SamePV t r.1 := by
+  intro fuel
+  induction fuel with
+  | zero => intro t win r h; simp [focusLost] at h
+  | succ n ih =>
+    intro t win r h
+    simp only [focusLost, bind_ok] at h
+    obtain ⟨r1, h1, h2⟩ := h
+    have hs1 : SamePV t r1.1 := by
+      simp only [focusLostChild, bind_ok] at h1
+      obtain ⟨w, _, h1⟩ := h1
+      split at h1
+      · simp only [pure_ok] at h1; subst h1; exact samePV_refl _
+      · simp only [bind_ok, pure_ok] at h1
+        obtain ⟨r0, h0, w', _, h1⟩ := h1
+        subst h1
+        exact ih _ _ r0 h0
+    exact samePV_trans hs1 (focusLostSelf_pv h2)
+
+theorem gainLoseOld_pv {fx : Fixes} {t : Tree} {win : Nat} {child : Option Nat} {r : Tree × List Event}
+    (h : gainLoseOld fx t win child = .ok r) : SamePV t r.1 := by
+  simp only [gainLoseOld, bind_ok] at h
+  obtain ⟨w, _, h⟩ := h
+  split at h
+  · simp only [pure_ok] at h; subst h; exact samePV_refl _
+  · split at h
+    · simp only [bind_ok, pure_ok] at h
+      obtain ⟨r0, h0, w', _, h⟩ := h
+      subst h
+      exact focusLost_pv _ _ _ r0 h0
+    · simp only [pure_ok] at h; subst h; exact samePV_refl _
+
+theorem gainSelfOut_pv {fx : Fixes} {t : Tree} {win : Nat} {child : Option Nat} {evs : List Event}
+    {r : Tree × List Event} (h : gainSelfOut fx t win child evs = .ok r) : SamePV t r.1 := by
+  simp only [gainSelfOut, bind_ok] at h
+  obtain ⟨w, hg, h⟩ := h
+  split at h
+  · simp only [pure_ok] at h; subst h; exact samePV_set (get_ok.mp hg).1 rfl
+  · simp only [pure_ok] at h; subst h; exact samePV_refl _
+
+theorem gainSelfIn_pv {t : Tree} {win : Nat} {child : Option Nat} {evs : List Event}
+    {r : Tree × List Event} (h : gainSelfIn t win child evs = .ok r) : SamePV t r.1 := by
+  simp only [gainSelfIn, bind_ok] at h
+  obtain ⟨w, hg, h⟩ := h
+  split at h
+  · simp only [pure_ok] at h; subst h; exact samePV_set (get_ok.mp hg).1 rfl
+  · simp only [pure_ok] at h; subst h; exact samePV_set (get_ok.mp hg).1 rfl
+
+/-- The window and every window on its parent chain below the top is visible (the top itself — the root window —
+    need not be: `_focus_gained` requests the restore there unconditionally). -/
+inductive VisPath (t : Tree) : Nat → Prop where
+  | top {win : Nat} {w : Win} : t.wins[win]? = some w → w.freed = false → w.parent = none → VisPath t win
+  | step {win p : Nat} {w : Win} : t.wins[win]? = some w → w.freed = false → w.parent = some p →
+      w.isVisible = true → VisPath t p → VisPath t win
+
+theorem visPath_pv {t t' : Tree} (h : SamePV t t') {win : Nat} (hp : VisPath t win) : VisPath t' win := by
+  induction hp with
+  | @top x w hw hf hpar =>
+    have := h.2 x
+    rw [hw] at this
+    cases hw' : t'.wins[x]? with
+    | none => rw [hw'] at this; simp at this
+    | some w' =>
+      rw [hw'] at this; simp [pv] at this
+      exact .top hw' (this.2.2.trans hf) (this.1.trans hpar)
+  | @step x p w hw hf hpar hv _ ih =>
+    have := h.2 x
+    rw [hw] at this
+    cases hw' : t'.wins[x]? with
+    | none => rw [hw'] at this; simp at this
+    | some w' =>
+      rw [hw'] at this; simp [pv] at this
+      exact .step hw' (this.2.2.trans hf) (this.1.trans hpar) (this.2.1.trans hv) ih
+
+/-- `take_focus` on a window whose parent chain is visible up to the top always leaves a restore requested. -/
+theorem focusGained_requests (fx : Fixes) : ∀ (fuel : Nat) (t : Tree) (win : Nat) (child : Option Nat)
+    (r : Tree × List Event), focusGained fx fuel t win child = .ok r → VisPath t win →
+    r.1.root.needsRestore = true ∧ r.1.root.needsLater = true := by
+  intro fuel
+  induction fuel with
+  | zero => intro t win child r h; simp [focusGained] at h
+  | succ n ih =>
+    intro t win child r h hp
+    simp only [focusGained, bind_ok] at h
+    obtain ⟨r1, h1, r2, h2, r3, h3, h4⟩ := h
+    have hs2 : SamePV t r2.1 := samePV_trans (gainLoseOld_pv h1) (gainSelfOut_pv h2)
+    have hp2 := visPath_pv hs2 hp
+    have hr3 : r3.1.root.needsRestore = true ∧ r3.1.root.needsLater = true := by
+      simp only [gainClimb, bind_ok] at h3
+      obtain ⟨w, hg, h3⟩ := h3
+      have hw := get_ok.mp hg
+      cases hp2 with
+      | top hw' _ hpar =>
+        rw [hw.1] at hw'; cases hw'
+        simp only [hpar, bind_ok, pure_ok] at h3
+        obtain ⟨t', ht', h3⟩ := h3
+        subst h3
+        unfold requestRestoreOf at ht'
+        simp only [bind_ok, pure_ok] at ht'
+        obtain ⟨_, _, ht'⟩ := ht'
+        subst ht'
+        exact ⟨rfl, rfl⟩
+      | step hw' _ hpar hv hpp =>
+        rw [hw.1] at hw'; cases hw'
+        simp only [hpar, hv, if_true] at h3
+        exact ih _ _ _ _ h3 hpp
+    have hs4 := gainSelfIn_pv h4
+    rw [hs4.1]; exact hr3
+
 end WinFocus
 end Tickit
